@@ -8,6 +8,7 @@ TRUST = ("Trusted base: CrossHair 0.0.110's symbolic model of CPython str/int/li
          "per query in the evidence file, nothing is claimed outside them.")
 TECH = "bounded symbolic execution of the real Python functions (CrossHair proxies + z3), path tree exhausted per query; counterexamples replayed natively"
 CLAIMED = {
+    "C13": ("6 C13", "rowio.fixed_rows decided for every Unicode text up to the length bound (quick 8, thorough 10-11 characters) for all 39 width lists x 5 delimiter settings against an independent recogniser of the record language."),
     "C01": ("6 C01", "Range.validate decided for all integers on arbitrary disjoint item lists (<= 4 items); Range.__init__ "
             "decided per token shape (1-4 items) for all limit values; DecimalRange for all k/10^s, |k|<10^6; every "
             "spelling pushed through the real tokenizer natively."),
